@@ -107,6 +107,8 @@ impl<'a> Hist<'a> {
         }
         self.out.fact("C07", "header-read-again-later-is-the-same", same, &format!("sealed-states={} {}", recorded.len(), which));
         self.out.fact("C07", "stake-root-read-again-later-is-the-stake-set", stake_ok, &format!("sealed-states={} {}", recorded.len(), which));
+        // C13: "the stake commitment in the header reflects exactly the registered, unexpired stakes" — of that state
+        self.out.fact("C13", "stake-root-read-again-later-is-the-stake-set", stake_ok && same, &format!("sealed-states={} {}", recorded.len(), which));
     }
 
     // ---------------------------------------------------------------- basic ops
@@ -585,6 +587,28 @@ impl<'a> Hist<'a> {
             self.bump("tx:inputless");
             return Some((tx, format!("{}+inputless", label)));
         }
+        // an ordinary, fully authorised spend relabelled as an ERG mint whose data is a difficulty and a proof that proves
+        // nothing (empty, a few nodes, garbage) — at any height, the first block of a chain included, where there is
+        // neither a header for the coin's height nor a previous block
+        if em.mutate > 0 && tx.kind == TxKind::Normal && r.chance(1, if p.height.0 == 0 { 8 } else { 40 }) {
+            tx.kind = TxKind::DoscMint;
+            let difficulty: u32 = *r.pick(&[0u32, 1, 5, 16, 64, 100, 101, 127, 128, 4000]);
+            let proof: Vec<u8> = match r.below(4) {
+                0 => vec![],
+                1 => r.bytes(40),
+                2 => r.bytes(80),
+                _ => {
+                    let n = r.below(50) as usize;
+                    r.bytes(n)
+                }
+            };
+            tx.data = stdcode::serialize(&(difficulty, proof)).unwrap().into();
+            let ins: Vec<WCoin> = tx.inputs.iter().filter_map(|i| wcoins.iter().find(|c| c.id == *i).cloned()).collect();
+            sign(&self.wallet, &mut tx, &ins);
+            self.bump("tx:blind-mint");
+            self.w.names.reg_tx(&tx);
+            return Some((tx, format!("{}+as-blind-mint-d{}", label, difficulty)));
+        }
         // an ordinary, fully authorised spend relabelled as a faucet
         if em.mutate > 0 && tx.kind == TxKind::Normal && r.chance(1, 25) {
             tx.kind = TxKind::Faucet;
@@ -727,6 +751,32 @@ impl<'a> Hist<'a> {
                             return (v, format!("spends-header-reading-coin-field{}{}", field, if zero { "-is-zero" } else { "" }));
                         }
                     }
+                }
+            }
+        }
+        // a stake transaction and a spender of one of its outputs (the staked coin, or — what a staker would rather try —
+        // the change) in the same batch, in either order: a stake registered by the batch locks from that batch on
+        if em.stake_ops > 0 && r.chance(1, 12) {
+            let p = self.parts(name);
+            let coins_map = CoinMapping::new(p.coins.clone());
+            let wcoins = self.wallet.coins(&coins_map, &self.w.names);
+            let pools: SmtMapping<Cas, PoolKey, PoolState> = SmtMapping::new(p.pools.clone());
+            let known: Vec<PoolKey> = vec![];
+            let cx = Ctx { height: p.height.0, network: p.network, mult: p.fee_multiplier, coins: &wcoins, pools: &pools, known_pools: &known };
+            if let Some(st) = gen_stake(r, &mut self.wallet, &cx) {
+                self.w.names.reg_tx(&st);
+                let idx = if st.outputs.len() > 1 && r.chance(2, 3) { 1 + r.below(st.outputs.len() as u64 - 1) as usize } else { 0 };
+                let cd = st.outputs[idx].clone();
+                let spec = self.wallet.specs.get(&cd.covhash).cloned().unwrap_or(CovSpec::StdNew(0));
+                let made = WCoin { id: st.output_coinid(idx as u8), cdh: CoinDataHeight { coin_data: cd, height: p.height }, spec };
+                let rest: Vec<WCoin> = wcoins.iter().filter(|c| !st.inputs.contains(&c.id)).cloned().collect();
+                let cx2 = Ctx { height: p.height.0, network: p.network, mult: p.fee_multiplier, coins: &rest, pools: &pools, known_pools: &known };
+                if let Some(sp) = gen_spend_of(r, &mut self.wallet, &cx2, &made) {
+                    self.w.names.reg_tx(&sp);
+                    self.stake_txs.push(st.hash_nosigs());
+                    self.bump("batch:stake-and-spender-of-its-output");
+                    let v = if r.chance(1, 2) { vec![st, sp] } else { vec![sp, st] };
+                    return (v, format!("stake-and-spender-of-its-output-{}", idx.min(1)));
                 }
             }
         }
@@ -1239,6 +1289,69 @@ fn script_ergsym_before_tip902(h: &mut Hist, r: &mut Rng) {
     h.bump("history:ergsym-before-tip902-script");
 }
 
+/// A scripted history across the TIP-906 activation (Testnet height 500): a faucet accepted before it, replayed in every
+/// block up to and after it — "at most once over the whole life of the chain" includes the block in which the coin tree
+/// is rebuilt with counts — and a faucet first accepted after the activation, replayed once more.
+fn script_faucet_across_activation(h: &mut Hist, r: &mut Rng) {
+    let a0 = h.wallet.spec_addr(CovSpec::StdNew(0));
+    let height = 496 + r.below(3);
+    let mut coins = vec![];
+    for i in 0..3u8 {
+        coins.push((CoinID::new(TxHash(tmelcrypt::hash_keyed(b"t906coin", [i])), 0), CoinDataHeight { coin_data: crate::txgen::out(a0, 1_000_000_000_000, Denom::Mel), height: BlockHeight(height - 3) }));
+    }
+    let pl = |l: u128, rr: u128, q: u128| PoolState { lefts: l, rights: rr, price_accum: 0, liqs: q };
+    let spec = FabSpec {
+        network: NetID::Testnet,
+        height,
+        fee_pool: 1 << 20,
+        fee_multiplier: 0,
+        dosc_speed: 1_000_000,
+        coins,
+        pools: vec![(PoolKey::new(Denom::Mel, Denom::Sym), pl(2_000_000_000, 3_000_000_000, 1_000_000_000)), (PoolKey::new(Denom::Mel, Denom::Erg), pl(2_000_000_000, 3_000_000_000, 1_000_000_000))],
+        stakes: vec![],
+        history: vec![(height - 1, 1_000_000), (height - 2, 1_000_000)],
+    };
+    let s0 = h.op_fab(&spec);
+    let Some(mut u) = h.op_next(&s0) else { return };
+    let mk = |r: &mut Rng, outs: Vec<CoinData>, fee: u128| Transaction { kind: TxKind::Faucet, inputs: vec![], outputs: outs, fee: CoinValue(fee), covenants: vec![], data: r.bytes(8).into(), sigs: vec![] };
+    // three shapes: one output, several outputs, no output at all (only a fee)
+    let early = vec![
+        mk(r, vec![crate::txgen::out(a0, 1000, Denom::Mel)], 0),
+        mk(r, vec![crate::txgen::out(a0, 5, Denom::Sym), crate::txgen::out(a0, 7, Denom::Erg)], 1000),
+        mk(r, vec![], 50_000),
+    ];
+    for f in &early {
+        h.w.names.reg_tx(f);
+        if let Some(nu) = h.op_batch(&u, &[f.clone()], "t906:faucet-before-activation") {
+            u = nu;
+        }
+    }
+    for _ in 0..(502 - height) {
+        let Some(s) = h.op_seal(&u, None) else { return };
+        let Some(nu) = h.op_next(&s) else { return };
+        u = nu;
+        // every earlier faucet is a duplicate in every later block
+        for f in &early {
+            if let Some(nu) = h.op_batch(&u, &[f.clone()], "t906:faucet-replay") {
+                u = nu;
+            }
+        }
+    }
+    let late = mk(r, vec![crate::txgen::out(a0, 1000, Denom::Mel)], 0);
+    h.w.names.reg_tx(&late);
+    if let Some(nu) = h.op_batch(&u, &[late.clone()], "t906:faucet-after-activation") {
+        u = nu;
+    }
+    let _ = h.op_batch(&u, &[late.clone()], "t906:faucet-replay-same-block");
+    if let Some(s) = h.op_seal(&u, None) {
+        if let Some(nu) = h.op_next(&s) {
+            let _ = h.op_batch(&nu, &[late], "t906:faucet-replay");
+            let _ = h.op_batch(&nu, &[early[0].clone()], "t906:faucet-replay");
+        }
+    }
+    h.bump("history:faucet-across-activation-script");
+}
+
 /// A scripted history with one big block: a chain of `n` transactions each spending the previous one's output (locked
 /// by the always-true covenant), applied one at a time, sealed, and then offered as a block to the parent — whose
 /// `apply_block` sees them as an unordered set of more than 256 members with dependencies all over it.
@@ -1400,6 +1513,10 @@ fn history_body(h: &mut Hist, r: &mut Rng, em: &Emphasis) {
     }
     if em.mutate > 0 && r.chance(1, 50) {
         script_many_inputs(h, r);
+        return;
+    }
+    if em.faucets >= 30 && r.chance(1, 25) {
+        script_faucet_across_activation(h, r);
         return;
     }
     // starting point
